@@ -1,6 +1,6 @@
 (* C09 - Perpetual pool aggregates equal the sum of positions; custody is always backed. Statements only. *)
 From Coq Require Import ZArith List Bool Arith.
-From Elys Require Import Base.Res Base.Fn Models.SumLedger Models.PerpLedger Proofs.PerpLedgerProofs Models.PerpBacking Proofs.PerpBackingProofs.
+From Elys Require Import Base.Res Base.Fn Models.SumLedger Models.PerpLedger Proofs.PerpLedgerProofs Proofs.PerpLedgerFrame Models.PerpBacking Proofs.PerpBackingProofs.
 From Elys Require Import Models.PerpBackingMulti Proofs.PerpBackingMultiProofs.
 Import ListNotations.
 Open Scope Z_scope.
@@ -21,6 +21,39 @@ Print Assumptions C09_aggregates.
 Theorem C09_invariant : forall fields h s, PInv fields s -> PInv fields (prun fields s h).
 Proof. exact prun_inv. Qed.
 Print Assumptions C09_invariant.
+
+(* EXACTLY what one primitive changes, and what it must not: a delta moves the acting MTP's field and the pool's aggregate
+   of THAT field by the same amount (the MTP field stays non-negative), no other aggregate, no other MTP, no other field of
+   the MTP, not the counter; storing / destroying an MTP moves only the counter (by one) and a destroyed MTP held nothing. *)
+Theorem C09_step_exact_and_frame : forall fields s o s', pstep fields s o = Ok s' ->
+  match o with
+  | PDelta k f d =>
+      pp s' f k = pp s f k + d /\ agg s' f = agg s f + d /\ 0 <= pp s' f k /\
+      (forall f', f' <> f -> agg s' f' = agg s f') /\
+      (forall f' k', (f' <> f \/ k' <> k) -> pp s' f' k' = pp s f' k') /\ cnt s' = cnt s /\ live s' = live s
+  | PNew k => (forall f, agg s' f = agg s f) /\ (forall f k', pp s' f k' = pp s f k') /\ cnt s' = cnt s + 1
+  | PDel k => (forall f, agg s' f = agg s f) /\ (forall f k', pp s' f k' = pp s f k') /\ cnt s' = cnt s - 1 /\
+              (forall f, In f fields -> pp s f k = 0)
+  end.
+Proof. exact pstep_exact. Qed.
+Print Assumptions C09_step_exact_and_frame.
+
+(* Over EVERY history of transactions (failing ones rolled back): an MTP no step names keeps every one of its amounts
+   (nobody's close, liquidation or settlement changes another position's liabilities, custody or collateral). *)
+Theorem C09_other_positions_untouched : forall fields h s k', (forall l o, In l h -> In o l -> mtp_of o <> k') ->
+  forall f, pp (prun fields s h) f k' = pp s f k'.
+Proof. exact prun_other_mtps. Qed.
+Print Assumptions C09_other_positions_untouched.
+
+(* All or nothing, and no negative position amount: a failing transaction changes nothing; a delta that would take an
+   MTP's field below zero is refused. *)
+Theorem C09_failed_tx_changes_nothing : forall fields s l, (forall s', psteps fields s l <> Ok s') -> ptx fields s l = s.
+Proof. exact ptx_failed_unchanged. Qed.
+Print Assumptions C09_failed_tx_changes_nothing.
+
+Theorem C09_negative_amount_refused : forall fields s k f d, pp s f k + d < 0 -> pstep fields s (PDelta k f d) = Err E_p.
+Proof. exact pdelta_below_zero_refused. Qed.
+Print Assumptions C09_negative_amount_refused.
 
 (* CUSTODY BACKING.  Model: Models/PerpBacking.v (per asset: amm reserve, long/short custody, long collateral, short
    liabilities; the primitive moves with CheckMinimumCustodyAmt placed exactly where the code runs it).
